@@ -67,6 +67,20 @@ def cases(tier):
         yield (parts, 1, 0, 3, 2, 1, False), subs  # no writer
 
 
+def cases_broad(tier):
+    """Breadth instead of order depth: every structure of 2-3 sub-streams with 1-2 partitions each over a small
+    partition alphabet, all option combinations, executed in dask's static order only (bound 0)."""
+    alpha = [(1,), (14,), (20, 3)] if tier == "quick" else [(1,), (5,), (14,), (20, 3), (0,)]
+    structs = [(1, 1), (1, 2), (2, 1), (2, 2), (1, 1, 1)] + ([(1, 2, 1), (2, 1, 1), (1, 1, 2)] if tier == "thorough" else [])
+    for subs in structs:
+        n = sum(subs)
+        for parts in itertools.product(alpha, repeat=n):
+            for wpc in (1, 2):
+                for spill in (0, M_SZ + 1, 1 << 30):
+                    for hl, fl in ((0, 0), (3, 0), (3, 2), (0, 2)):
+                        yield (tuple(parts), wpc, spill, hl, fl, 1, True), subs
+
+
 def run_case(case, bound):
     cfg, subs = case
     stats, dp_fails = c06.explore_cfg(cfg)
@@ -133,7 +147,23 @@ def run(ctx):
                       f"ftr={case[0][4]}, substreams={case[1]}): {m}")
         return r
 
-    e1.run_slices(ctx, [e1.Slice(f"dask-orders-bound{bound}", gen, runc, sl["note"], shards=len(allcases))])
+    broad = list(cases_broad(ctx.tier))
+
+    def runb(case):
+        st, fails, nouts, ntasks = run_case(case, 0)
+        r = R(outcome=f"broad:subs{len(case[1])}:tasks{ntasks // 10 * 10}")
+        r.counts = dict(dask_executions=st.executions, dask_tasks_run=st.tasks_run, transitions=st.tasks_run, dask_graphs=1)
+        for k, m in fails.items():
+            r.fail(k, f"cfg(partitions={case[0][0]}, wpc={case[0][1]}, spill={case[0][2]}, hdr={case[0][3]}, "
+                      f"ftr={case[0][4]}, substreams={case[1]}): {m}")
+        return r
+
+    e1.run_slices(ctx, [
+        e1.Slice(f"dask-orders-bound{bound}", gen, runc, sl["note"], shards=len(allcases)),
+        e1.Slice("dask-substreams-broad", lambda: iter(broad), runb,
+                 "every structure of 2-3 sub-streams x partition alphabet x options through the real mpu_write graph, "
+                 "dask's static order"),
+    ])
     ctx.bounds["dask_deviation_bound"] = bound
 
 
